@@ -51,7 +51,8 @@ class FaultPlan:
 
 
 class AFS:
-    def __init__(self, cwd="/cwd", order="reversed", home="/home/u"):
+    def __init__(self, cwd="/cwd", order="reversed", home="/home/u", tag=""):
+        self.tag = tag
         self.files = {}          # abs path -> Node
         self.dirs = {"/"}
         self.cwd = cwd
@@ -160,7 +161,7 @@ class AFS:
             perms = list(itertools.permutations(range(len(names))))
             if len(perms) > 24:
                 raise Unsupported("symbolic listing of %d entries" % len(names))
-            k = eng().choice("perm:%s:%d" % (r, len(self._perm)), len(perms))
+            k = eng().choice("perm%s:%s:%d" % (self.tag, r, len(self._perm)), len(perms))
             self._perm[key] = perms[k]
         return [names[i] for i in self._perm[key]]
 
